@@ -74,15 +74,76 @@ def run(ctx):
     from ofxtools.Parser import TreeBuilder
     rng = ctx.rng
     regex = TreeBuilder.regex
-    cases = []   # (rt, lead, doc)
+    batch = []   # (rt, lead, doc)
     seen = set()
+    counter = [0]
+
+    vbuf = wire.ViolationBuffer(ctx)
+    violate = vbuf.add
 
     def add(rt, lead=""):
         doc = wire.rt_doc(rt, lead)
         if doc in seen:
             return
         seen.add(doc)
-        cases.append((rt, lead, doc))
+        batch.append((rt, lead, doc))
+        if len(batch) >= 30000:
+            flush()
+
+    def flush():
+        cases = list(batch)
+        del batch[:]
+        if cases:
+            process(cases)
+
+    def process(cases):
+        base = counter[0]
+        counter[0] += len(cases)
+        docs = [c[2] for c in cases]
+        rep_build = ctx.model.ask([line("build", d) for d in docs])
+        rep_lex = ctx.model.ask([line("lex", d) for d in docs])
+        # the Lean renderer on a sample of the annotated trees (all of them would double the protocol volume)
+        idx_r = [i for i in range(len(cases)) if base + i < 4000 or (base + i) % 17 == 0]
+        rep_render = dict(zip(idx_r, ctx.model.ask([line("spec.render", wire.rt_enc(cases[i][0])) for i in idx_r])))
+        for i, (rt, lead, doc) in enumerate(cases):
+            want = wire.rt_tree(rt)
+            guards = wire.rt_guards(rt, doc)
+            case = {"doc": doc, "rt": rt, "lead": lead}
+            impl, ikind = impl_build(TreeBuilder, doc)
+            model, mkind = model_build(rep_build[i])
+            ctx.stat("impl:" + (impl[0] if impl[0] == "ok" else "err:" + str(ikind)))
+            ctx.stat("nodes:%d" % min(wire.rt_nodes(rt), 30))
+            ctx.stat("guards:" + ("".join(sorted(set(guards))) or "strict"))
+            ctx.compare("build", {"doc": doc}, impl, model, nontrivial=(impl[0] == "ok"))
+            if impl[0] == "err" and model[0] == "err" and ikind != mkind:
+                ctx.stat("errkind-differs")
+            ilex = canon_lex(regex, doc)
+            mlex = rep_lex[i].vals[0] if rep_lex[i].ok else rep_lex[i].raw
+            ctx.compare("lex", {"doc": doc}, ilex, mlex, nontrivial=False)
+            ctx.sample({"case": {"doc": doc}, "impl": impl, "model": model, "expected_tree": want})
+            # ---- oracle: the property itself ----
+            if impl != ["ok", ["some", want]]:
+                tag = classify(guards) or ("valid_rendering_rejected" if impl[0] == "err" else "wrong_tree")
+                violate(tag, case,
+                        f"rendering of {wire.rt_abs(rt)!r} parsed to {impl} ({ikind or ''}) instead of the rendered tree",
+                        {"guards": guards, "outcome": impl[0]})
+            # ---- the generator explores the Lean grammar: renderer and side conditions agree ----
+            if i in rep_render:
+                rr = rep_render[i]
+                ctx.evaluations += 1
+                mine = [S(wire.rt_str(rt)), want, "T" if wire.rt_ok(rt, False) else "F", "T" if wire.rt_ok(rt, True) else "F"]
+                if not rr.ok or rr.vals != mine:
+                    ctx.disagree("spec.render", {"rt": rt}, mine, rr.vals if rr.ok else rr.raw)
+                elif mine[2] != "T":
+                    ctx.disagree("generator-outside-grammar", {"rt": rt}, "T", mine[2])
+                if wire.rt_ok(rt, True) != (not [g for g in guards if g != "G1"]):
+                    ctx.disagree("strict-vs-guards", {"rt": rt}, wire.rt_ok(rt, True), guards)
+            # independent reference reader (skips G3 documents: they are ambiguous without a DTD)
+            if "G3" not in guards and (base + i) % 5 == 0:
+                ctx.evaluations += 1
+                ref = wire.ref_result(doc)
+                if ref != ("ok", wire.rt_abs(rt)):
+                    ctx.disagree("reference-reader", {"doc": doc}, wire.rt_abs(rt), ref)
 
     for rt, lead in WITNESSES:
         add(rt, lead)
@@ -134,53 +195,7 @@ def run(ctx):
             add(wire.uniform_rt(t, st, rng.choice(wire.WS_SMALL)))
             add(wire.random_rt(rng, t, wire.WS_SMALL, strict=False))
 
-    # ---- run ------------------------------------------------------------------------------------------------
-    docs = [c[2] for c in cases]
-    rep_build = ctx.model.ask([line("build", d) for d in docs])
-    rep_lex = ctx.model.ask([line("lex", d) for d in docs])
-    # the Lean renderer on a sample of the annotated trees (all of them would double the protocol volume)
-    idx_r = [i for i in range(len(cases)) if i < 4000 or i % 17 == 0]
-    rep_render = dict(zip(idx_r, ctx.model.ask([line("spec.render", wire.rt_enc(cases[i][0])) for i in idx_r])))
-
-    for i, (rt, lead, doc) in enumerate(cases):
-        want = wire.rt_tree(rt)
-        guards = wire.rt_guards(rt, doc)
-        case = {"doc": doc, "rt": rt, "lead": lead}
-        impl, ikind = impl_build(TreeBuilder, doc)
-        model, mkind = model_build(rep_build[i])
-        ctx.stat("impl:" + (impl[0] if impl[0] == "ok" else "err:" + str(ikind)))
-        ctx.stat("nodes:%d" % min(wire.rt_nodes(rt), 30))
-        ctx.stat("guards:" + ("".join(sorted(set(guards))) or "strict"))
-        ctx.compare("build", {"doc": doc}, impl, model, nontrivial=(impl[0] == "ok"))
-        if impl[0] == "err" and model[0] == "err" and ikind != mkind:
-            ctx.stat("errkind-differs")
-        ilex = canon_lex(regex, doc)
-        mlex = rep_lex[i].vals[0] if rep_lex[i].ok else rep_lex[i].raw
-        ctx.compare("lex", {"doc": doc}, ilex, mlex, nontrivial=False)
-        ctx.sample({"case": {"doc": doc}, "impl": impl, "model": model, "expected_tree": want})
-        # ---- oracle: the property itself ----
-        if impl != ["ok", ["some", want]]:
-            tag = classify(guards) or ("valid_rendering_rejected" if impl[0] == "err" else "wrong_tree")
-            ctx.violate(tag, case,
-                        f"rendering of {wire.rt_abs(rt)!r} parsed to {impl} ({ikind or ''}) instead of the rendered tree",
-                        {"guards": guards, "outcome": impl[0]})
-        # ---- the generator explores the Lean grammar: renderer and side conditions agree ----
-        if i in rep_render:
-            rr = rep_render[i]
-            ctx.evaluations += 1
-            mine = [S(wire.rt_str(rt)), want, "T" if wire.rt_ok(rt, False) else "F", "T" if wire.rt_ok(rt, True) else "F"]
-            if not rr.ok or rr.vals != mine:
-                ctx.disagree("spec.render", {"rt": rt}, mine, rr.vals if rr.ok else rr.raw)
-            elif mine[2] != "T":
-                ctx.disagree("generator-outside-grammar", {"rt": rt}, "T", mine[2])
-            if wire.rt_ok(rt, True) != (not [g for g in guards if g != "G1"]):
-                ctx.disagree("strict-vs-guards", {"rt": rt}, wire.rt_ok(rt, True), guards)
-        # independent reference reader (skips G3 documents: they are ambiguous without a DTD)
-        if "G3" not in guards and i % 5 == 0:
-            ctx.evaluations += 1
-            ref = wire.ref_result(doc)
-            if ref != ("ok", wire.rt_abs(rt)):
-                ctx.disagree("reference-reader", {"doc": doc}, wire.rt_abs(rt), ref)
+    flush()
 
     # ---- guard G1 twin, and lexer soup ----------------------------------------------------------------------
     m = ctx.budget(6000, 120000)
@@ -198,6 +213,7 @@ def run(ctx):
         ctx.evaluations += 1
         if not sf.ok or sf.vals[0] != ("T" if wire.cd_safe(d) else "F"):
             ctx.disagree("spec.cdsafe", {"doc": d}, wire.cd_safe(d), sf.raw)
+    vbuf.emit()
 
 
 def replay(ctx, data):
